@@ -345,7 +345,41 @@ def run(ck, only=None):
             jid = f"g|large|{gid}"
             jobs.append({"id": jid, "args": [path, "--formatter", "none", "--no-layout-tests"] + DERIVES, "inventory": True, "text": False, "fixpoint": True, "timeout": 300})
             meta[jid] = ("large", (gid,), "(generated: typedef float real; 9000 records holding it; Probe at one end)")
+    # the same C++ graphs under other spellings of "this is C++" (file extension x language argument): the facts may not depend on
+    # which spelling told bindgen the language
+    lang_jobs = {}
+    if not only or only.get("lang"):
+        for gid, lang, decls, flags in graphs:
+            if lang != "cpp" or (only and only.get("graph") != gid):
+                continue
+            perm = next(iter(valid_orders(decls)))
+            src = render(decls, perm, lang)
+            for vn, ext, cl in (("hpp-x-c++", "hpp", ["-x", "c++"]), ("h-x-c++-header", "h", ["-x", "c++-header"]), ("h-xc++", "h", ["-xc++"]), ("hh-none", "hh", []),
+                                ("h-x-c++-header-std", "h", ["-xc++-header", "-std=c++14"])):
+                path = os.path.join(wd, f"lang_{gid}_{vn.replace('+', 'p')}.{ext}")
+                open(path, "w").write(src)
+                jid = f"lang|{gid}|{vn}"
+                jobs.append({"id": jid, "args": [path, "--formatter", "none"] + DERIVES + flags + ["--"] + cl + (["-std=c++14"] if "-std=c++14" not in cl else []), "inventory": True, "text": False, "fixpoint": True})
+                lang_jobs[jid] = (gid, vn, src)
     res = common.run_jobs(jobs, wd, timeout=300)
+    lang_ref = {}
+    for jid, (gid, vn, src) in lang_jobs.items():
+        r = res.pop(jid)
+        ck.count()
+        case = f"graph={gid} language-spelling={vn}"
+        det = {"graph": gid, "lang": vn}
+        if r["status"] != "ok":
+            ck.violation(case + " generation-failed", dict(det, why=f"{r['status']} {r.get('err', r.get('panic'))}"[:300], src=src))
+            continue
+        fix_events(ck, case, r, det)
+        can = canon_items(r["inventory"])
+        if gid not in lang_ref:
+            lang_ref[gid] = (vn, can)
+        else:
+            ck.nontriv(jid)
+            msgs = diff_canon(lang_ref[gid][1], can)
+            if msgs:
+                ck.violation(case + " differs-from-spelling " + lang_ref[gid][0], dict(det, why="; ".join(msgs)[:900], src=src))
     ref = {}
     nheaders = 0
     for jid in sorted(res):
